@@ -32,10 +32,12 @@ type zooMaker struct {
 	name  string
 	heavy bool
 	make  func() (segs []segment.Segment, lsegs []*model.LSeg, drops [][]uint32, merged bool, err error)
+	// first: the member's (first) input batch, for the properties about BUILT segments
+	first func() []model.Doc
 }
 
 func zooBuilt(name string, heavy bool, batch func() []model.Doc) zooMaker {
-	return zooMaker{name, heavy, func() ([]segment.Segment, []*model.LSeg, [][]uint32, bool, error) {
+	return zooMaker{name: name, heavy: heavy, first: batch, make: func() ([]segment.Segment, []*model.LSeg, [][]uint32, bool, error) {
 		b := batch()
 		model.SumFreqLen(b)
 		s, err := build(b, 1025)
@@ -48,7 +50,7 @@ func zooBuilt(name string, heavy bool, batch func() []model.Doc) zooMaker {
 
 // zooMerged: the listed batches are built (each optionally self-merged first: form 2) and merged.
 func zooMerged(name string, heavy bool, form int, drops [][]uint32, batches ...func() []model.Doc) zooMaker {
-	return zooMaker{name, heavy, func() ([]segment.Segment, []*model.LSeg, [][]uint32, bool, error) {
+	return zooMaker{name: name, heavy: heavy, first: batches[0], make: func() ([]segment.Segment, []*model.LSeg, [][]uint32, bool, error) {
 		var segs []segment.Segment
 		var lsegs []*model.LSeg
 		for i, bf := range batches {
@@ -116,7 +118,7 @@ func zooMakers() []zooMaker {
 	// 4. twins: two segments of the same shape and byte ranges, other content
 	out = append(out, zooMerged("twins", false, 0, nil, mix("a", 2, 1, 4, 2, 9, 1), mix("z", 2, 1, 4, 2, 9, 1)))
 	// 5. depth 2: merge(merge(a,b) with a deletion, c), and a merge whose middle input lost everything
-	out = append(out, zooMaker{"depth2", false, func() ([]segment.Segment, []*model.LSeg, [][]uint32, bool, error) {
+	out = append(out, zooMaker{name: "depth2", make: func() ([]segment.Segment, []*model.LSeg, [][]uint32, bool, error) {
 		var in []segment.Segment
 		var ls []*model.LSeg
 		for i, f := range []func() []model.Doc{mix("a", 2, 1, 3), mix("b", 4, 1, 7)} {
@@ -208,6 +210,109 @@ func zooMakers() []zooMaker {
 	}
 	out = append(out, zooBuilt("wide-300", false, wide(300, true)))
 	out = append(out, zooMerged("wide-140+partner", false, 0, [][]uint32{{0}, nil}, wide(140, false), partner))
+	// 6b. SIZE SWEEPS: one quantity at a time walked across the places where encodings change width
+	// (varint lengths at 2^7, 2^14, 2^21, 2^28; one-byte counters at 255/256; 128-document blocks and
+	// 1024-document chunks; 2^16) - each value and both neighbours
+	around := func(vs ...int) []int {
+		var out []int
+		seen := map[int]bool{}
+		for _, v := range vs {
+			for _, x := range []int{v - 1, v, v + 1} {
+				if x >= 0 && !seen[x] {
+					seen[x] = true
+					out = append(out, x)
+				}
+			}
+		}
+		return out
+	}
+	fill := func(n, salt int) []byte {
+		b := make([]byte, n)
+		for i := range b {
+			b[i] = byte('a' + (i*7+salt)%26)
+		}
+		return b
+	}
+	// (a) stored value length; (b) term length (postings term and doc-value term, with a neighbour
+	// sharing all but the last byte)
+	for _, L := range around(1, 64, 128, 256, 4096, 16384, 65536) {
+		L := L
+		out = append(out, zooMerged(fmt.Sprintf("size-value-%d", L), false, 0, [][]uint32{{1}, nil}, func() []model.Doc {
+			return []model.Doc{
+				{gen.IDField("v", 0), {N: "a", Len: 1, St: true, Val: fill(L, 1), Terms: []model.Term{{T: "x", Freq: 1}}}},
+				{gen.IDField("v", 1), {N: "a", Len: 1, St: true, Val: []byte("dropped"), Terms: []model.Term{{T: "x", Freq: 1}}}},
+				{gen.IDField("v", 2), {N: "a", Len: 1, St: true, Val: fill(L, 2), Terms: []model.Term{{T: "y", Freq: 1}}}, {N: "z", St: true, Val: fill(L/2, 3)}},
+			}
+		}, partner))
+		if L >= 1 {
+			out = append(out, zooMerged(fmt.Sprintf("size-term-%d", L), false, 0, [][]uint32{nil, {0}}, func() []model.Doc {
+				t := string(fill(L, 5))
+				t2 := t[:L-1] + "~"
+				return []model.Doc{
+					{gen.IDField("t", 0), {N: "a", Len: 2, Terms: []model.Term{{T: t, Freq: 1, Locs: []model.Loc{{P: 1, S: 0, E: L}}}, {T: t2, Freq: 1}}}, {N: "b", Len: 2, DV: true, Terms: []model.Term{{T: t, Freq: 1}, {T: t2, Freq: 1}}}},
+					{gen.IDField("t", 1), {N: "a", Len: 1, Terms: []model.Term{{T: t2, Freq: 1}}}, {N: "b", Len: 1, DV: true, Terms: []model.Term{{T: t, Freq: 1}}}},
+				}
+			}, partner))
+		}
+	}
+	// (c) number of fields; (d) number of doc-value terms / stored values / instances in ONE document
+	for _, F := range around(2, 128, 256) {
+		F := F
+		if F < 1 {
+			continue
+		}
+		out = append(out, zooMerged(fmt.Sprintf("size-fields-%d", F), false, 0, [][]uint32{{0}, nil}, func() []model.Doc {
+			var b []model.Doc
+			for d := 0; d < 3; d++ {
+				doc := model.Doc{gen.IDField("f", d)}
+				for f := 0; f < F; f++ {
+					if (f+d)%2 == 0 || f == F-1 {
+						doc = append(doc, model.Field{N: fmt.Sprintf("g%03d", f), Len: 1, DV: f%3 == 0, St: f%4 == 0, Val: []byte{byte(f), byte(d)}, Terms: []model.Term{{T: fmt.Sprintf("t%d", (f+d)%3), Freq: 1}}})
+					}
+				}
+				b = append(b, doc)
+			}
+			return b
+		}, partner))
+		out = append(out, zooMerged(fmt.Sprintf("size-perdoc-%d", F), false, 0, [][]uint32{nil, {1}}, func() []model.Doc {
+			var ts []model.Term
+			doc := model.Doc{gen.IDField("p", 0)}
+			for k := 0; k < F; k++ {
+				ts = append(ts, model.Term{T: fmt.Sprintf("dv%04d", k), Freq: 1})
+				doc = append(doc, model.Field{N: "s", St: true, Val: []byte(fmt.Sprintf("value-%d", k))})
+			}
+			doc = append(doc, model.Field{N: "b", Len: F, DV: true, Terms: ts})
+			return []model.Doc{doc, {gen.IDField("p", 1), {N: "b", Len: 1, DV: true, Terms: ts[:1]}, {N: "s", St: true, Val: []byte("one")}}}
+		}, partner))
+	}
+	// (e) number of documents (stored blocks of 128, doc-value chunks of 1024, 2^14)
+	for _, N := range around(128, 256, 1024, 2048, 16384) {
+		N := N
+		out = append(out, zooMerged(fmt.Sprintf("size-docs-%d", N), N > 5000, 0, [][]uint32{{0}, nil}, func() []model.Doc {
+			b := make([]model.Doc, N)
+			for i := range b {
+				b[i] = model.Doc{gen.IDField("n", i), {N: "a", Len: 1, St: i%3 == 0, Val: []byte(fmt.Sprintf("s%d", i)), Terms: []model.Term{{T: "x", Freq: 1 + i%2, Locs: []model.Loc{{P: 1, S: i % 300, E: i%300 + 1}}}}}}
+				if i%2 == 1 || i == N-1 {
+					b[i] = append(b[i], model.Field{N: "b", Len: 1, DV: true, Terms: []model.Term{{T: fmt.Sprintf("t%d", i%5), Freq: 1}}})
+				}
+			}
+			return b
+		}, partner))
+	}
+	// (f) frequencies and location numbers at varint width changes
+	for _, V := range around(128, 16384, 1<<21, 1<<28, 1<<31, 1<<32, 1<<35) {
+		V := V
+		if V < 1 {
+			continue
+		}
+		out = append(out, zooMerged(fmt.Sprintf("size-number-%d", V), false, 0, [][]uint32{nil, {0}}, func() []model.Doc {
+			return []model.Doc{
+				{gen.IDField("q", 0), {N: "a", Len: 2, Terms: []model.Term{{T: "x", Freq: V}, {T: "y", Freq: 2, Locs: []model.Loc{{P: V, S: V - 1, E: V}, {P: 1, S: V, E: V + 1}}}}}},
+				{gen.IDField("q", 1), {N: "a", Len: 1, Terms: []model.Term{{T: "x", Freq: 1}, {T: "y", Freq: 1}}}},
+				{gen.IDField("q", 2), {N: "a", Len: 1, Terms: []model.Term{{T: "x", Freq: V + 1}}}},
+			}
+		}, partner))
+	}
 	// 7. 66 000 documents (document numbers cross 65 536)
 	out = append(out, zooBuilt("huge-66000", true, func() []model.Doc {
 		b := gen.Large(66000, 1, 1)
